@@ -411,3 +411,42 @@ def must_pass_ps(fn, src, targets, through):
     if fn.must_pass(src, set(targets), set(through)):
         return True
     return not feasible_reach(fn, src, targets, through)
+
+
+def backward_slice(fn, operand):
+    """Flow-insensitive backward slice of an operand: -> (set of ADT constructor names, set of callee names) that feed its value."""
+    adts, callees = set(), set()
+    if operand['k'] not in ('copy', 'move'):
+        return adts, callees
+    seen, work = set(), [operand['pl']['l']]
+
+    def ops_of(rv):
+        out = []
+        for k in ('op', 'a', 'b'):
+            if k in rv and isinstance(rv[k], dict):
+                out.append(rv[k])
+        out += rv.get('ops', [])
+        if 'pl' in rv:
+            out.append({'k': 'copy', 'pl': rv['pl']})
+        return out
+
+    while work:
+        l = work.pop()
+        if l in seen:
+            continue
+        seen.add(l)
+        for d in fn.defs().get(l, []):
+            if d[0] == 'stmt':
+                rv = d[3]
+                if rv['k'] == 'agg' and rv.get('ak') == 'adt':
+                    adts.add(rv['adt'])
+                for o in ops_of(rv):
+                    if o['k'] in ('copy', 'move'):
+                        work.append(o['pl']['l'])
+            elif d[0] == 'call':
+                t = d[2]
+                callees.add(t['func'].get('fn') or '<indirect>')
+                for o in t['args']:
+                    if o['k'] in ('copy', 'move'):
+                        work.append(o['pl']['l'])
+    return adts, callees
